@@ -683,5 +683,38 @@ func init() {
 			in, tags := genCtrlCase(rng, mode, cmdEvery > 0)
 			emit(in, tags)
 		}
+		// long constant-curve tails under the default PID algorithm (exploration of C04's PID clause)
+		for i := 0; i < ctx.Param("pidlong", 0); i++ {
+			in, tags := genCtrlCase(rng, "random", false)
+			in.Alg, in.P, in.I, in.D = "pid", jF(0.3), jF(0.02), jF(0.005)
+			in.NeverStop = false
+			if len(in.Hist) > 12 {
+				in.Hist = in.Hist[:12]
+			}
+			for k := range in.Hist { // tick periods 50 ms .. 2 s only: the PID clause is stated for those
+				if in.Hist[k].T == "cycle" {
+					in.Hist[k].Dt = int64(rng.Range(50, 2000)) * 1e6
+				}
+			}
+			dt := int64([]int{500, 1000, 2000}[rng.Intn(3)]) * 1e6
+			cycles := 520
+			if !ctx.Quick() && i%2 == 1 {
+				dt = int64([]int{50, 100, 200}[rng.Intn(3)]) * 1e6
+				cycles = 3200
+			}
+			v := rng.Range(0, 255)
+			if rng.Chance(1, 3) {
+				v = []int{0, 255, 250, 5}[rng.Intn(4)]
+			}
+			// hours of idling at an extreme first (integral wind-up), then the constant value
+			idle := []int{0, 255}[rng.Intn(2)]
+			for k := 0; k < 1800; k++ { // one hour of 2 s ticks
+				in.Hist = append(in.Hist, ctrlEv{T: "cycle", Curve: ctrlPtr(idle), Dt: 2000 * 1e6, ReadOk: true, WriteOk: true, ModeOk: true})
+			}
+			for k := 0; k < cycles; k++ {
+				in.Hist = append(in.Hist, ctrlEv{T: "cycle", Curve: ctrlPtr(v), Dt: dt, ReadOk: true, WriteOk: true, ModeOk: true})
+			}
+			emit(in, append(tags, "gen=pidlong"))
+		}
 	}
 }
